@@ -57,6 +57,7 @@ struct ConnState {
     fault: Option<(u64, String)>,
     delay_ms: u64,
     split: bool, // the delayed reply arrives in two halves: one at once, one after the delay
+    delays: Vec<u64>, // delay of the reply frame at position 1, 2, ... (overrides delay_ms)
     hs_stage: u64,
     unacked: bool, // a reply frame was handed to the client and not acknowledged yet
     // frame boundaries inside rbuf: (bytes still unread, exchange, position, a planned well-formed frame?)
@@ -127,11 +128,30 @@ impl Term {
 fn completion() -> Vec<u8> {
     p::CompletionData::default().zvt_serialize()
 }
+// (the terminal's frames are assembled byte by byte where the packet has no Default: the simulated terminal does not depend on the
+// field list of the library's structs)
 fn abort(code: u8) -> Vec<u8> {
-    p::Abort { error: code }.zvt_serialize()
+    vec![0x06, 0x1e, 0x01, code]
+}
+/// 06 1E with the receipt number of 2.10.1: BMP 87, two bytes BCD, FFFF for "none"
+fn abort_with_receipt(code: u8, receipt: Option<usize>) -> Vec<u8> {
+    match receipt {
+        None => abort(code),
+        Some(0xffff) => vec![0x06, 0x1e, 0x04, code, 0x87, 0xff, 0xff],
+        Some(r) => {
+            let r = r % 10000;
+            let b = |x: usize| (((x / 10) << 4) | (x % 10)) as u8;
+            vec![0x06, 0x1e, 0x04, code, 0x87, b(r / 100), b(r % 100)]
+        }
+    }
+}
+fn intermediate_n(k: u64) -> Vec<u8> {
+    // the status byte rotates: "please wait", "please watch PIN-pad" (01, 02), "card not admitted" ...
+    let status = [0x0au8, 0x01, 0x17, 0x02, 0x00, 0xff][(k % 6) as usize];
+    vec![0x04, 0xff, 0x01, status]
 }
 fn intermediate() -> Vec<u8> {
-    p::IntermediateStatusInformation { status: 0x0a, timeout: None }.zvt_serialize()
+    intermediate_n(0)
 }
 const ACK: [u8; 3] = [0x80, 0x00, 0x00];
 
@@ -150,11 +170,11 @@ fn script_for(term: &mut Term, frame: &[u8], plan: &Value) -> (Vec<Vec<u8>>, Str
     // one-shot exchanges (registration, system information, set terminal id) have no intermediate packets in their reply set; card
     // reading has no print lines
     let one_shot = matches!(cf, (0x06, 0x00) | (0x0f, 0xa1) | (0x06, 0x1b));
-    for _ in 0..plan.get("inter").and_then(|c| c.as_u64()).filter(|_| !is_query && !one_shot).unwrap_or(0) {
-        frames.push(intermediate());
+    for k in 0..plan.get("inter").and_then(|c| c.as_u64()).filter(|_| !is_query && !one_shot).unwrap_or(0) {
+        frames.push(intermediate_n(term.next_ex + k));
     }
     for _ in 0..plan.get("lines").and_then(|c| c.as_u64()).filter(|_| !is_query && !one_shot && cf != (0x06, 0xc0)).unwrap_or(0) {
-        frames.push(p::PrintLine { attribute: 0, text: "receipt line".into() }.zvt_serialize());
+        frames.push([&[0x06u8, 0xd1, 13, 0][..], &b"receipt line"[..]].concat());
     }
     let status_from = |s: &Value, receipt: Option<usize>| -> p::StatusInformation {
         let g = |k: &str| s.get(k).filter(|v| !v.is_null()).map(|v| from_digits(v) as usize);
@@ -175,7 +195,7 @@ fn script_for(term: &mut Term, frame: &[u8], plan: &Value) -> (Vec<Vec<u8>>, Str
     let status_first = plan.get("status_first").and_then(|b| b.as_bool()).unwrap_or(false);
     // an abort that names a receipt number (06 1E 04 cc 87 rr rr) instead of the short form 06 1E 01 cc
     let abort_receipt: Option<usize> = plan.get("abort_receipt").and_then(|r| r.as_u64()).map(|r| r as usize);
-    let abort_rn = |code: u8| -> Vec<u8> { p::PartialReversalAbort { error: code, receipt_no: abort_receipt }.zvt_serialize() };
+    let abort_rn = |code: u8| -> Vec<u8> { abort_with_receipt(code, abort_receipt) };
     match cf {
         (0x06, 0x00) => {
             // Registration: a bare completion, or one that reports status byte, terminal id and currency (2.1.3)
@@ -183,7 +203,7 @@ fn script_for(term: &mut Term, frame: &[u8], plan: &Value) -> (Vec<Vec<u8>>, Str
                 frames.push(abort(code))
             } else if plan.get("rich").and_then(|b| b.as_bool()).unwrap_or(false) {
                 let tid = plan.get("terminal_id").and_then(|s| s.as_str()).unwrap_or(&term.terminal_id).parse::<usize>().unwrap_or(0);
-                frames.push(p::CompletionData { result_code: None, status_byte: Some(0), terminal_id: Some(tid), currency: Some(978) }.zvt_serialize());
+                frames.push(p::CompletionData { status_byte: Some(0), terminal_id: Some(tid), currency: Some(978), ..p::CompletionData::default() }.zvt_serialize());
             } else {
                 frames.push(completion())
             }
@@ -227,7 +247,7 @@ fn script_for(term: &mut Term, frame: &[u8], plan: &Value) -> (Vec<Vec<u8>>, Str
                     frames.push(completion());
                 }
                 _ => {
-                    let r = plan.get("receipt").and_then(|c| c.as_u64()).unwrap_or(term.next_receipt).clamp(1, 9999);
+                    let r = plan.get("receipt").and_then(|c| c.as_u64()).unwrap_or(term.next_receipt).clamp(0, 9999);
                     term.next_receipt = if r >= 9999 { 1 } else { r + 1 };
                     let amt = req.as_ref().and_then(|r| r.amount).unwrap_or(0) as u128;
                     let tok = req.as_ref().and_then(|r| r.tlv.as_ref()).and_then(|t| t.bmp_data.as_ref()).map(|b| b.bmp_data.clone().into_bytes()).unwrap_or_default();
@@ -264,7 +284,7 @@ fn script_for(term: &mut Term, frame: &[u8], plan: &Value) -> (Vec<Vec<u8>>, Str
                             "status" => frames.push(status_from(&empty, None).zvt_serialize()),
                             _ => {
                                 frames.push(intermediate());
-                                frames.push(p::PartialReversalAbort { error: 0xb8, receipt_no: Some(0xffff) }.zvt_serialize());
+                                frames.push(abort_with_receipt(0xb8, Some(0xffff)));
                             }
                         }
                     }
@@ -276,7 +296,7 @@ fn script_for(term: &mut Term, frame: &[u8], plan: &Value) -> (Vec<Vec<u8>>, Str
                             Some(v) => Some(v.as_u64().unwrap_or(0xffff) as usize),
                             None => term.ledger.iter().find(|(_, _, tok)| tok.is_empty()).map(|(r, _, _)| *r as usize).or(Some(0xffff)),
                         };
-                        frames.push(p::PartialReversalAbort { error: c, receipt_no: rn }.zvt_serialize());
+                        frames.push(abort_with_receipt(c, rn));
                     }
                 }
             } else {
@@ -462,7 +482,7 @@ fn send_next(term: &mut Term, c: &mut ConnState, cst: &Arc<Mutex<ConnState>>) {
     if pos >= 1 {
         c.unacked = true;
     }
-    let delay = if pos == 1 { c.delay_ms } else { 0 };
+    let delay = if let Some(d) = c.delays.get((pos as usize).wrapping_sub(1)) { *d } else if pos == 1 { c.delay_ms } else { 0 };
     let kind = cmd_kind(&frame);
     let code = if frame.len() > 3 && frame[..2] == [0x06, 0x1e] { json!(frame[3]) } else { Value::Null };
     if delay > 0 {
@@ -600,6 +620,7 @@ impl AsyncWrite for Conn {
             c.fault = plan.get("fault").map(|f| (f["pos"].as_u64().unwrap_or(0), f["kind"].as_str().unwrap_or("silence").to_string()));
             c.delay_ms = plan.get("delay_ms").and_then(|d| d.as_u64()).unwrap_or(0);
             c.split = plan.get("split").and_then(|d| d.as_bool()).unwrap_or(false);
+            c.delays = plan.get("delays").and_then(|d| d.as_array()).map(|a| a.iter().map(|x| x.as_u64().unwrap_or(0)).collect()).unwrap_or_default();
             c.pending.push_back(ACK.to_vec());
             for f in frames {
                 c.pending.push_back(f);
@@ -834,6 +855,10 @@ pub fn run_scenario(sc: &Value) -> Value {
                 b.iter().map(|x| if *x == 0 { "\0".to_string() } else {
                     <zvt::encoding::Default as Encoding<String>>::decode(&[*x]).map(|r| r.0).unwrap_or_default() }).collect()
             };
+            if let Some(ms) = call.get("idle_ms").and_then(|m| m.as_u64()) {
+                // nothing happens for a while before this call
+                tokio::time::sleep(std::time::Duration::from_millis(ms)).await;
+            }
             {
                 let mut t = term.lock().unwrap_or_else(|e| e.into_inner());
                 t.call_mark = t.events.len();
